@@ -59,13 +59,16 @@ GBmpOff == /\ bmp # "off" /\ Coin(3) /\ bmp' = "off" /\ Log([ev |-> "BmpOff"])
 (* the connection is lost while some neighbour is established (otherwise nothing is there to be re-sent) *)
 GBmpDrop == /\ bmp # "off" /\ ~dropped /\ (\E p \in Peers : up[p]) /\ dropped' = TRUE /\ Log([ev |-> "BmpDrop"])
             /\ UNCHANGED <<up, inr, loc, polvars, gone, bmp>>
+(* after the connection was lost, a session that ends soon makes the daemon notice while most routes are
+   still the ones it reported before *)
+GKick(p) == /\ dropped /\ PDown(p) /\ Log([ev |-> "Down", p |-> p]) /\ UNCHANGED <<gone, bmp>> /\ dropped' = FALSE
 GDump   == Log([ev |-> "Dump"]) /\ UNCHANGED <<up, inr, loc, polvars, gone, bmp, dropped>>
 
 (* a single Finish step ends the behaviour: exactly the behaviour the simulator followed is printed *)
 GFinish == /\ Len(hist) >= MaxSteps /\ ~done /\ done' = TRUE
            /\ UNCHANGED <<up, inr, loc, polvars, gone, bmp, dropped, hist>>
 GStep == /\ Len(hist) < MaxSteps /\ UNCHANGED done
-         /\ \/ \E p \in Peers : GUp(p) \/ GDown(p) \/ GAnn(p) \/ GAnn(p) \/ GWd(p) \/ GDelPeer(p) \/ GAddPeer(p)
+         /\ \/ \E p \in Peers : GUp(p) \/ GDown(p) \/ GAnn(p) \/ GAnn(p) \/ GWd(p) \/ GDelPeer(p) \/ GAddPeer(p) \/ GKick(p)
             \/ GApiAdd \/ GApiDel
             \/ GBmpOn \/ GBmpOn \/ GBmpOn \/ GBmpOff \/ GBmpDrop \/ GBmpDrop
             \/ GDump \/ GDump
